@@ -54,25 +54,25 @@ type lMsg struct {
 }
 
 type lReset struct {
-	Op       string `json:"op"`
-	Observed    bool `json:"observed"`              // the sentinel counters of all procedures were seen dropping to 0
-	Spontaneous bool `json:"spontaneous,omitempty"` // not a scripted reset: a tick was detected in the middle of a burst
-	Timeout     bool `json:"timeout,omitempty"`
+	Op          string `json:"op"`
+	Observed    bool   `json:"observed"`              // the sentinel counters of all procedures were seen dropping to 0
+	Spontaneous bool   `json:"spontaneous,omitempty"` // not a scripted reset: a tick was detected in the middle of a burst
+	Timeout     bool   `json:"timeout,omitempty"`
 }
 
 type lRec struct {
-	K     string        `json:"k"`
-	ID    int           `json:"id"`
-	Procs []lProc       `json:"procs"`
-	Peers []lPeer       `json:"peers"`
-	Steps []interface{} `json:"steps"`
-	Truncated bool       `json:"truncated,omitempty"` // the script was cut at a message whose interval was ambiguous
-	Panic string        `json:"panic,omitempty"`
-	Err   string        `json:"err,omitempty"`
+	K         string        `json:"k"`
+	ID        int           `json:"id"`
+	Procs     []lProc       `json:"procs"`
+	Peers     []lPeer       `json:"peers"`
+	Steps     []interface{} `json:"steps"`
+	Truncated bool          `json:"truncated,omitempty"` // the script was cut at a message whose interval was ambiguous
+	Panic     string        `json:"panic,omitempty"`
+	Err       string        `json:"err,omitempty"`
 }
 
 // fixed valid peer id of the sentinel peer (never appears in a record)
-const sentinelPeerID = "12D3KooWGRUVh6eFcXSB5VCQh9s2MbTB9fKq3x2DVFmkvQyi5kdH"
+const sentinelPeerID = fixedPeerID
 
 func procName(i int) string { return fmt.Sprintf("p%d", i) }
 
